@@ -149,8 +149,10 @@ def run(ch, tier):
         elif op == 'queue':
             d = ops.pick([None, None, 0, 1, 2, 2, 5] + ([-1, -4] if cfg.neg_delays else []))
             client = ops.choice(3)
-            uid = sim.queue(ops.pick(names), d)
-            hist.append(('queue', 'client%d' % client, uid, d, float(sim.lastT)))
+            meta = ops.flag(1, 6)       # now and then a MetaEvent instance: queue() files it with the external events
+            uid = sim.queue(ops.pick(names), d, as_meta=meta)
+            hist.append(('queue', 'client%d%s' % (client, ' (MetaEvent instance)' if meta else ''), uid, d, float(sim.lastT)))
+            res.stats['meta_event_instances_queued'] += int(meta)
             if d:
                 res.stats['delayed_external'] += 1
         elif op == 'queue2':
